@@ -272,12 +272,13 @@ def PodGood (c : Ctl) (v : Pod) : Prop :=
 
 /-- Endpoint before pod, pod status changes, IP assignment: after a Pod add/update handled with the
     queue drained (the event, then the replays it queued) the invariant holds again. -/
-theorem pod_write_inv (c : Ctl) (v : Pod) (c' : Ctl) (hstep : stepC c (.pod v) = some c')
+theorem pod_write_inv (c : Ctl) (v : Pod) (c' : Ctl) (hph : v.phase ≠ "F") (hstep : stepC c (.pod v) = some c')
     (hinv : Inv c)
     (hwf : WF { c with pods := upsertBy (fun x => x.ns = v.ns ∧ x.name = v.name) v c.pods })
     (hnc : NoCachedAddr c) (hnc' : NoCachedAddr c')
     (hgood : PodGood c v) : Inv c' := by
-  simp only [stepC, Option.some.injEq] at hstep
+  rw [stepC_pod c v hph] at hstep
+  simp only [Option.some.injEq] at hstep
   subst hstep
   let c1 : Ctl := { c with pods := upsertBy (fun x => x.ns = v.ns ∧ x.name = v.name) v c.pods }
   have hfind : findPod c1.pods v.ns v.name = some v := by
